@@ -201,6 +201,10 @@ func runC05(r *core.Run) {
 			}
 		}
 	})
+	// structures straddling the loaders' read-ahead buffer; segments and chunks above 32 KiB
+	for _, f := range boundaryFiles(r.Seed, true) {
+		one(f)
+	}
 	if r.Thorough() {
 		c05Sweeps(r, rng, one)
 	}
